@@ -1,5 +1,822 @@
 //! Translator targets owned by property C20.
-#[allow(unused_imports)]
-use super::{Gen, Target};
+//!
+//! `evalmem` → `Generated/EvalMem.lean`, from `src/lir/eval.rs` and
+//! `src/codegen/mod.rs`:
+//!
+//!  * the field lists of `Allocation`, `LocalPointer`, `StackFrame`, `Memory`
+//!    (must equal the hand-written structures of `Model/EvalMem.lean`);
+//!  * `LocalPointer::offset_by`, `Allocation::{read, write}`,
+//!    `StackFrame::{read, write}`, `Memory::{read_slice, write, copy,
+//!    push_frame, pop_frame, offset_by, allocate, get}` — `&mut self` functions
+//!    become state-passing functions (`Res Self` / `Res (Self × T)`): the
+//!    desugarer below turns `x.push(e)`, `x += e`, `x[a..b].copy_from_slice(v)`
+//!    and calls of `&mut self` methods through `&mut xs[i]` aliases into
+//!    functional updates with write-back, the rest is `r2l`;
+//!  * the control-flow arms of the evaluator loop (`Switch`, `Jump`, and the
+//!    program-counter part of `Return`) and the `Switch` arm of
+//!    `FuncGen::instruction`.
+//!
+//! Anything outside the subset (an `unsafe` view of the storage, a method
+//! without a Lean meaning such as `binary_search_by_key`, a changed
+//! statement shape) is an extraction failure = broken obligation.
 
-pub const TARGETS: &[Target] = &[];
+use super::{Gen, Target};
+use crate::find;
+use crate::r2l::{CallRw, Cx, Meth};
+use crate::{footer, header};
+use quote::ToTokens;
+use std::collections::HashMap;
+use std::path::Path;
+use syn::{Expr, Stmt};
+
+pub const TARGETS: &[Target] = &[("evalmem", "EvalMem", evalmem as Gen)];
+
+const STRUCTS: [&str; 6] = ["Allocation", "LocalPointer", "GlobalPointer", "StackFrame", "Memory", "Pointer"];
+
+fn txt<T: ToTokens>(t: &T) -> String {
+    t.to_token_stream().to_string()
+}
+
+fn nospace(s: &str) -> String {
+    s.replace(' ', "")
+}
+
+/// Rust type ↦ Lean type (of the memory model).
+fn lean_ty(t: &str, this: &str) -> Result<String, String> {
+    let t = nospace(t);
+    let t = t.trim_start_matches('&').trim_start_matches("mut");
+    Ok(match t {
+        "usize" | "u32" => "Nat".into(),
+        "u8" => "UInt8".into(),
+        "Self" => this.into(),
+        "()" => "Unit".into(),
+        "Var" => "Nat".into(),
+        "*mut()" => "RawPtr".into(),
+        "[u8]" | "Vec<u8>" | "Box<[u8]>" => "(List UInt8)".into(),
+        x if STRUCTS.contains(&x) => x.into(),
+        x => {
+            if let Some(inner) = x.strip_prefix("Option<").and_then(|s| s.strip_suffix('>')) {
+                format!("(Option {})", lean_ty(inner, this)?)
+            } else if let Some(inner) = x.strip_prefix("Vec<").and_then(|s| s.strip_suffix('>')) {
+                format!("(List {})", lean_ty(inner, this)?)
+            } else {
+                return Err(format!("type outside the memory model: {x}"));
+            }
+        }
+    })
+}
+
+/// element type of a `Vec<T>` field
+fn elem_ty(field_ty: &str) -> Option<String> {
+    nospace(field_ty)
+        .strip_prefix("Vec<")
+        .and_then(|s| s.strip_suffix('>'))
+        .map(|s| s.to_string())
+}
+
+struct Decls {
+    /// struct ↦ (field, type)
+    fields: HashMap<String, Vec<(String, String)>>,
+    /// functions to generate: (type, method) ↦ is `&mut self`, returns unit
+    fns: HashMap<(String, String), (bool, bool)>,
+}
+
+/// Desugars one function body into pure-functional Rust text for `r2l`.
+struct Desugar<'a> {
+    d: &'a Decls,
+    this: String,
+    mut_self: bool,
+    unit: bool,
+    /// local ↦ Rust type name
+    env: HashMap<String, String>,
+    /// `&mut` aliases: local ↦ (place text, index text)
+    aliases: HashMap<String, (String, String)>,
+}
+
+impl Desugar<'_> {
+    fn root(&self, s: &str) -> String {
+        if s == "self" { "self_".into() } else { s.into() }
+    }
+
+    /// the type of a place `R` or `R.f`
+    fn place_ty(&self, e: &Expr) -> Option<String> {
+        match e {
+            Expr::Path(p) => self.env.get(&txt(p)).cloned(),
+            Expr::Field(f) => {
+                let base = self.place_ty(&f.base)?;
+                let fs = self.d.fields.get(&base)?;
+                fs.iter().find(|x| x.0 == txt(&f.member)).map(|x| x.1.clone())
+            }
+            Expr::Reference(r) => self.place_ty(&r.expr),
+            Expr::Paren(p) => self.place_ty(&p.expr),
+            Expr::Index(ix) => elem_ty(&self.place_ty(&ix.expr)?),
+            _ => None,
+        }
+    }
+
+    /// expression text with method calls on receivers of a known generated
+    /// type turned into calls of `Type__method`, `self` renamed.
+    fn expr(&self, e: &Expr) -> String {
+        struct V<'b, 'c>(&'b Desugar<'c>);
+        impl syn::visit_mut::VisitMut for V<'_, '_> {
+            fn visit_expr_mut(&mut self, e: &mut Expr) {
+                syn::visit_mut::visit_expr_mut(self, e);
+                match e {
+                    Expr::MethodCall(mc) => {
+                        if let Some(t) = self.0.place_ty(&mc.receiver) {
+                            let t = t.trim_start_matches('&').to_string();
+                            let m = mc.method.to_string();
+                            if self.0.d.fns.contains_key(&(t.clone(), m.clone())) {
+                                let mut args = vec![txt(&mc.receiver)];
+                                args.extend(mc.args.iter().map(txt));
+                                *e = syn::parse_str(&format!("{t}__{m}({})", args.join(", ")))
+                                    .expect("desugared call parses");
+                            }
+                        }
+                    }
+                    // pointer casts are the identity on the model's addresses; the address of a
+                    // place is taken with `raw_of_ref` (the place has to exist)
+                    Expr::Cast(c) if matches!(*c.ty, syn::Type::Ptr(_)) => {
+                        *e = match &*c.expr {
+                            Expr::Reference(r) => syn::parse_str(&format!("raw_of_ref({})", txt(&r.expr)))
+                                .expect("raw_of_ref parses"),
+                            other => other.clone(),
+                        };
+                    }
+                    // the one raw access: what a global pointer refers to
+                    Expr::Unsafe(u) => {
+                        if let [Stmt::Expr(Expr::Call(c), None)] = u.block.stmts.as_slice() {
+                            if nospace(&txt(&c.func)).ends_with("slice::from_raw_parts") && c.args.len() == 2 {
+                                let a: Vec<String> = c.args.iter().map(txt).collect();
+                                *e = syn::parse_str(&format!("raw_read({}, {})", a[0], a[1])).expect("raw read parses");
+                            }
+                        }
+                    }
+                    _ => {}
+                }
+            }
+        }
+        let mut e = e.clone();
+        // typed receivers are looked up with the original names
+        syn::visit_mut::VisitMut::visit_expr_mut(&mut V(self), &mut e);
+        // `self` ↦ `self_`
+        struct S;
+        impl syn::visit_mut::VisitMut for S {
+            fn visit_expr_path_mut(&mut self, p: &mut syn::ExprPath) {
+                if p.path.is_ident("self") {
+                    *p = syn::parse_str("self_").unwrap();
+                }
+            }
+        }
+        syn::visit_mut::VisitMut::visit_expr_mut(&mut S, &mut e);
+        txt(&e)
+    }
+
+    fn ret(&self, v: Option<String>) -> String {
+        match (self.mut_self, self.unit, v) {
+            (true, true, _) => "self_".into(),
+            (true, false, Some(v)) => format!("(self_, {v})"),
+            (true, false, None) => "(self_, ())".into(),
+            (false, _, Some(v)) => v,
+            (false, _, None) => "()".into(),
+        }
+    }
+
+    /// `R.f = V` / `R = V` as `let` lines, with write-back through aliases.
+    fn assign(&self, place: &Expr, value: String, out: &mut String) -> Result<(), String> {
+        let root = match place {
+            Expr::Path(p) => {
+                let r = txt(p);
+                out.push_str(&format!("let {} = {value};\n", self.root(&r)));
+                r
+            }
+            Expr::Field(f) => {
+                let Expr::Path(p) = &*f.base else {
+                    return Err(format!("unsupported place (nested field): {}", txt(place)));
+                };
+                let r = txt(p);
+                let rr = self.root(&r);
+                out.push_str(&format!("let {rr} = Upd {{ {}: {value}, ..{rr} }};\n", txt(&f.member)));
+                r
+            }
+            other => return Err(format!("unsupported place: {}", txt(other))),
+        };
+        if !self.mut_self && root == "self" {
+            return Err("mutation of `self` in a `&self` function".into());
+        }
+        if let Some((pl, idx)) = self.aliases.get(&root) {
+            let pl_e: Expr = syn::parse_str(pl).map_err(|e| e.to_string())?;
+            let v = format!("vec_set({}, {}, {})", self.expr(&pl_e), idx, self.root(&root));
+            self.assign(&pl_e, v, out)?;
+        }
+        Ok(())
+    }
+
+    /// a statement that mutates through a place; `None` when `e` is not one
+    fn mutation(&self, e: &Expr, out: &mut String) -> Result<Option<Option<String>>, String> {
+        match e {
+            Expr::MethodCall(mc) => {
+                let m = mc.method.to_string();
+                let args: Vec<String> = mc.args.iter().map(|a| self.expr(a)).collect();
+                match m.as_str() {
+                    "push" if args.len() == 1 => {
+                        let v = format!("vec_push({}, {})", self.expr(&mc.receiver), args[0]);
+                        self.assign(&mc.receiver, v, out)?;
+                        Ok(Some(None))
+                    }
+                    "pop" if args.is_empty() => {
+                        out.push_str(&format!("let popped__ = vec_pop({});\n", self.expr(&mc.receiver)));
+                        self.assign(&mc.receiver, "popped__.0".into(), out)?;
+                        Ok(Some(Some("popped__.1".into())))
+                    }
+                    "copy_from_slice" if args.len() == 1 => {
+                        let Expr::Index(ix) = &*mc.receiver else {
+                            return Err("copy_from_slice: receiver is not a slice of a place".into());
+                        };
+                        let Expr::Range(r) = &*ix.index else {
+                            return Err("copy_from_slice: receiver is not a range".into());
+                        };
+                        let (Some(a), Some(b)) = (&r.start, &r.end) else {
+                            return Err("copy_from_slice: open range".into());
+                        };
+                        if !matches!(r.limits, syn::RangeLimits::HalfOpen(_)) {
+                            return Err("copy_from_slice: inclusive range".into());
+                        }
+                        let v = format!(
+                            "vec_splice({}, {}, {}, {})",
+                            self.expr(&ix.expr),
+                            self.expr(a),
+                            self.expr(b),
+                            args[0]
+                        );
+                        self.assign(&ix.expr, v, out)?;
+                        Ok(Some(None))
+                    }
+                    _ => {
+                        // a `&mut self` method of a generated type on `self` or an alias
+                        let Some(t) = self.place_ty(&mc.receiver) else { return Ok(None) };
+                        let Some((is_mut, unit)) = self.d.fns.get(&(t.clone(), m.clone())) else { return Ok(None) };
+                        if !is_mut {
+                            return Ok(None);
+                        }
+                        let mut a = vec![self.expr(&mc.receiver)];
+                        a.extend(args);
+                        let call = format!("{t}__{m}({})", a.join(", "));
+                        if *unit {
+                            self.assign(&mc.receiver, call, out)?;
+                            Ok(Some(None))
+                        } else {
+                            out.push_str(&format!("let called__ = {call};\n"));
+                            self.assign(&mc.receiver, "called__.0".into(), out)?;
+                            Ok(Some(Some("called__.1".into())))
+                        }
+                    }
+                }
+            }
+            Expr::Binary(b) if matches!(b.op, syn::BinOp::AddAssign(_)) => {
+                let v = format!("{} + {}", self.expr(&b.left), self.expr(&b.right));
+                self.assign(&b.left, v, out)?;
+                Ok(Some(None))
+            }
+            Expr::Assign(a) => {
+                self.assign(&a.left, self.expr(&a.right), out)?;
+                Ok(Some(None))
+            }
+            _ => Ok(None),
+        }
+    }
+
+    fn bind_pat(&mut self, pat: &syn::Pat) {
+        // `Pointer::Local(p)` ↦ p : LocalPointer (payload types of `Pointer`)
+        if let syn::Pat::TupleStruct(ts) = pat {
+            let v = ts.path.segments.last().map(|s| s.ident.to_string()).unwrap_or_default();
+            let payload = match v.as_str() {
+                "Local" => Some("LocalPointer"),
+                "Global" => Some("GlobalPointer"),
+                _ => None,
+            };
+            if let (Some(t), Some(syn::Pat::Ident(i))) = (payload, ts.elems.first()) {
+                self.env.insert(i.ident.to_string(), t.into());
+            }
+        }
+    }
+
+    fn tail(&mut self, e: &Expr) -> Result<String, String> {
+        Ok(match e {
+            Expr::Match(m) => {
+                let mut s = format!("match {} {{\n", self.expr(&m.expr));
+                for a in &m.arms {
+                    if a.guard.is_some() {
+                        return Err("unsupported: guard in a memory function".into());
+                    }
+                    let saved = (self.env.clone(), self.aliases.clone());
+                    self.bind_pat(&a.pat);
+                    let body = match &*a.body {
+                        Expr::Block(b) => self.block(&b.block.stmts)?,
+                        other => self.block(&[Stmt::Expr(other.clone(), None)])?,
+                    };
+                    (self.env, self.aliases) = saved;
+                    s.push_str(&format!("{} => {{ {body} }}\n", txt(&a.pat)));
+                }
+                s + "}"
+            }
+            Expr::If(i) => {
+                let then = self.block(&i.then_branch.stmts)?;
+                let els = match &i.else_branch {
+                    Some((_, e)) => self.tail(e)?,
+                    None => return Err("unsupported: tail `if` without `else`".into()),
+                };
+                format!("if {} {{ {then} }} else {{ {els} }}", self.expr(&i.cond))
+            }
+            Expr::Block(b) => self.block(&b.block.stmts)?,
+            Expr::Return(r) => {
+                let v = r.expr.as_ref().map(|x| self.expr(x));
+                format!("return {}", self.ret(v))
+            }
+            Expr::Macro(_) => txt(e),
+            other => {
+                let mut out = String::new();
+                match self.mutation(other, &mut out)? {
+                    Some(v) => format!("{out}{}", self.ret(v)),
+                    None => self.ret(Some(self.expr(other))),
+                }
+            }
+        })
+    }
+
+    fn block(&mut self, stmts: &[Stmt]) -> Result<String, String> {
+        let saved = (self.env.clone(), self.aliases.clone());
+        let mut out = String::new();
+        let mut closed = false;
+        for (k, s) in stmts.iter().enumerate() {
+            let last = k + 1 == stmts.len();
+            match s {
+                Stmt::Local(l) => {
+                    let init = l.init.as_ref().ok_or("let without initialiser")?;
+                    if init.diverge.is_some() {
+                        return Err("unsupported: let-else in a memory function".into());
+                    }
+                    let (pat, _asc) = match &l.pat {
+                        syn::Pat::Type(pt) => (&*pt.pat, Some(txt(&pt.ty))),
+                        p => (p, None),
+                    };
+                    let name = match pat {
+                        syn::Pat::Ident(i) => i.ident.to_string(),
+                        other => return Err(format!("unsupported let pattern: {}", txt(other))),
+                    };
+                    // the initialiser is evaluated in the old environment
+                    let value = self.expr(&init.expr);
+                    let ty = self.place_ty(&init.expr);
+                    self.aliases.remove(&name);
+                    if let Expr::Reference(r) = &*init.expr {
+                        if let (true, Expr::Index(ix)) = (r.mutability.is_some(), &*r.expr) {
+                            if matches!(*ix.index, Expr::Range(_)) {
+                                return Err("unsupported: `&mut` of a sub-slice".into());
+                            }
+                            self.aliases.insert(name.clone(), (txt(&ix.expr), self.expr(&ix.index)));
+                        } else if r.mutability.is_some() {
+                            return Err(format!("unsupported `&mut` borrow: {}", txt(&init.expr)));
+                        }
+                    }
+                    match ty {
+                        Some(t) => self.env.insert(name.clone(), t),
+                        None => self.env.remove(&name),
+                    };
+                    out.push_str(&format!("let {name} = {value};\n"));
+                }
+                Stmt::Macro(m) => {
+                    // assert!/assert_eq!/panic!/trace!: r2l gives them their meaning
+                    let inner: proc_macro2::TokenStream = m.mac.tokens.clone();
+                    let args = syn::parse::Parser::parse2(
+                        syn::punctuated::Punctuated::<Expr, syn::Token![,]>::parse_terminated,
+                        inner,
+                    );
+                    let name = txt(&m.mac.path);
+                    match (name.as_str(), args) {
+                        ("assert" | "assert_eq" | "assert_ne", Ok(a)) => {
+                            let n = if name == "assert" { 1 } else { 2 };
+                            let a: Vec<String> = a.iter().take(n).map(|x| self.expr(x)).collect();
+                            out.push_str(&format!("{name}!({});\n", a.join(", ")));
+                        }
+                        _ => out.push_str(&format!("{};\n", txt(&m.mac))),
+                    }
+                    if last && nospace(&name) == "panic" {
+                        closed = true;
+                    }
+                }
+                Stmt::Expr(e, semi) => {
+                    let is_ctl = matches!(e, Expr::Return(_) | Expr::Match(_) | Expr::Block(_))
+                        || matches!(e, Expr::If(i) if i.else_branch.is_some())
+                        || matches!(e, Expr::Macro(_));
+                    if last && (semi.is_none() || is_ctl) {
+                        out.push_str(&self.tail(e)?);
+                        closed = true;
+                    } else if let Expr::If(i) = e {
+                        // `if c { …; return x; }` followed by more statements
+                        if i.else_branch.is_some() || !crate::r2l::diverges(&i.then_branch.stmts) {
+                            return Err(format!("unsupported statement: {}", txt(e)));
+                        }
+                        let then = self.block(&i.then_branch.stmts)?;
+                        out.push_str(&format!("if {} {{ {then} }}\n", self.expr(&i.cond)));
+                    } else {
+                        let mut lines = String::new();
+                        match self.mutation(e, &mut lines)? {
+                            Some(_) => out.push_str(&lines),
+                            None => return Err(format!("unsupported statement: {}", txt(e))),
+                        }
+                    }
+                }
+                Stmt::Item(_) => return Err("unsupported: nested item".into()),
+            }
+        }
+        if !closed {
+            out.push_str(&self.ret(None));
+        }
+        (self.env, self.aliases) = saved;
+        Ok(out)
+    }
+}
+
+fn mem_cx(this: &str) -> Cx {
+    let mut cx = Cx::default();
+    for (r, l) in [
+        ("Pointer::Local", "Pointer.Local"),
+        ("Pointer::Global", "Pointer.Global"),
+        ("self_", "self_"),
+    ] {
+        cx.paths.insert(r.into(), l.into());
+    }
+    cx.paths.insert("Self".into(), format!("{this}.mk"));
+    // struct literals
+    for t in ["Allocation", "LocalPointer", "GlobalPointer", "StackFrame", "Memory"] {
+        cx.paths.insert(t.into(), format!("{t}.mk"));
+    }
+    cx.paths.insert("Vec::new".into(), "Vec.new".into());
+    cx.paths.insert("val".into(), "val_".into());
+    cx.types.insert("usize".into(), "Nat".into());
+    cx.types.insert("Vec<_>".into(), "(List UInt8)".into());
+    cx.methods.insert("len".into(), Meth::Pure("Vec.len".into()));
+    cx.methods.insert("is_multiple_of".into(), Meth::Pure("Usize.is_multiple_of".into()));
+    cx.methods.insert("next_multiple_of".into(), Meth::Fallible("Usize.next_multiple_of".into()));
+    cx.methods.insert("div_ceil".into(), Meth::Fallible("Usize.div_ceil".into()));
+    cx.methods.insert("into_boxed_slice".into(), Meth::Identity);
+    cx.methods.insert("to_vec".into(), Meth::Identity);
+    for (f, l, fallible) in [
+        ("vec_push", "Vec.push", false),
+        ("vec_set", "Vec.set", false),
+        ("vec_pop", "Vec.pop", false),
+        ("raw_read", "Raw.read", false),
+        ("raw_of_ref", "Raw.of_ref", false),
+        ("vec_splice", "Vec.splice", true),
+    ] {
+        if fallible {
+            cx.fallible_fns.insert(f.into(), (l.into(), false));
+        } else {
+            cx.paths.insert(f.into(), l.into());
+        }
+    }
+    cx
+}
+
+/// `vec![0; n]` ↦ `vec_zeros(n)` (text level: `syn` keeps macro bodies opaque)
+fn vec_zeros(s: &str) -> String {
+    let mut out = String::new();
+    let mut rest = s;
+    while let Some(i) = rest.find("vec ! [0 ;") {
+        out.push_str(&rest[..i]);
+        let after = &rest[i + "vec ! [0 ;".len()..];
+        let Some(j) = after.find(']') else { break };
+        out.push_str(&format!("vec_zeros({})", after[..j].trim()));
+        rest = &after[j + 1..];
+    }
+    out + rest
+}
+
+const MEM_FNS: [(&str, &str); 15] = [
+    ("Allocation", "get"),
+    ("StackFrame", "get"),
+    ("Memory", "get"),
+    ("LocalPointer", "offset_by"),
+    ("Allocation", "write"),
+    ("Allocation", "read"),
+    ("StackFrame", "write"),
+    ("StackFrame", "read"),
+    ("Memory", "write"),
+    ("Memory", "read_slice"),
+    ("Memory", "copy"),
+    ("Memory", "push_frame"),
+    ("Memory", "pop_frame"),
+    ("Memory", "offset_by"),
+    ("Memory", "allocate"),
+];
+
+pub fn evalmem(repo: &Path) -> Result<String, String> {
+    let eval = find::parse(repo, "src/lir/eval.rs")?;
+    let codegen = find::parse(repo, "src/codegen/mod.rs")?;
+    let mut out = header("EvalMem", &["src/lir/eval.rs", "src/codegen/mod.rs"])
+        .replace("import RotoV.Model.Clif\n", "import RotoV.Model.Clif\nimport RotoV.Model.EvalMem\n");
+
+    // ---- declarations: the field lists are part of the tie
+    let mut d = Decls { fields: HashMap::new(), fns: HashMap::new() };
+    let expected: [(&str, &[(&str, &str)]); 5] = [
+        ("Allocation", &[("inner", "Box<[u8]>")]),
+        (
+            "LocalPointer",
+            &[("stack_index", "usize"), ("stack_id", "usize"), ("allocation_index", "usize"), ("allocation_offset", "usize")],
+        ),
+        ("GlobalPointer", &[("ptr", "*mut()")]),
+        (
+            "StackFrame",
+            &[("id", "usize"), ("return_address", "usize"), ("return_place", "Option<Var>"), ("allocations", "Vec<Allocation>")],
+        ),
+        ("Memory", &[("id_counter", "usize"), ("stack", "Vec<StackFrame>"), ("pointers", "Vec<Pointer>")]),
+    ];
+    for (name, want) in expected {
+        let have = find::struct_fields(&eval, name)?;
+        let want: Vec<(String, String)> = want.iter().map(|(a, b)| (a.to_string(), b.to_string())).collect();
+        if have != want {
+            return Err(format!(
+                "struct {name}: fields {have:?} differ from the modelled {want:?} (Model/EvalMem.lean has to follow the source)"
+            ));
+        }
+        d.fields.insert(name.into(), have);
+    }
+    let variants = find::enum_variants(&eval, "Pointer")?;
+    if variants != ["Global", "Local"] {
+        return Err(format!("enum Pointer: variants {variants:?} differ from the modelled [Global, Local]"));
+    }
+
+    // ---- signatures first (calls between the functions need them)
+    let mut bodies = vec![];
+    for (t, m) in MEM_FNS {
+        let f = find::func(&eval, m, Some(t))?;
+        let recv = f.sig.receiver().ok_or(format!("{t}::{m}: no self parameter"))?;
+        let is_mut = recv.mutability.is_some();
+        let unit = matches!(f.sig.output, syn::ReturnType::Default);
+        d.fns.insert((t.to_string(), m.to_string()), (is_mut, unit));
+        bodies.push((t, m, f, is_mut, unit));
+    }
+
+    for (t, m, f, is_mut, unit) in bodies {
+        let mut ds = Desugar {
+            d: &d,
+            this: t.to_string(),
+            mut_self: is_mut,
+            unit,
+            env: HashMap::new(),
+            aliases: HashMap::new(),
+        };
+        ds.env.insert("self".into(), t.to_string());
+        let mut params = vec![format!("(self_ : {t})")];
+        for a in f.sig.inputs.iter().skip(1) {
+            let syn::FnArg::Typed(pt) = a else { continue };
+            let name = txt(&pt.pat);
+            let ty = nospace(&txt(&pt.ty));
+            let lname = if name == "val" { "val_".to_string() } else { crate::r2l::lean_ident(&name) };
+            params.push(format!("({lname} : {})", lean_ty(&ty, t)?));
+            let bare = ty.trim_start_matches('&').trim_start_matches("mut").to_string();
+            if STRUCTS.contains(&bare.as_str()) {
+                ds.env.insert(name, bare);
+            }
+        }
+        let ret = match &f.sig.output {
+            syn::ReturnType::Default => None,
+            syn::ReturnType::Type(_, ty) => Some(lean_ty(&txt(ty), t)?),
+        };
+        let ret = match (is_mut, ret) {
+            (true, None) => t.to_string(),
+            (true, Some(r)) => format!("{t} × {r}"),
+            (false, None) => "Unit".into(),
+            (false, Some(r)) => r,
+        };
+        let text = ds.block(&f.block.stmts).map_err(|e| format!("{t}::{m}: {e}"))?;
+        let text = vec_zeros(&text);
+        let block: syn::Block = syn::parse_str(&format!("{{ {text} }}"))
+            .map_err(|e| format!("{t}::{m}: desugared body does not parse: {e}\n{text}"))?;
+        let mut cx = mem_cx(t);
+        cx.paths.insert("vec_zeros".into(), "Vec.zeros".into());
+        for ((ft, fm), _) in d.fns.iter() {
+            cx.fallible_fns.insert(format!("{ft}__{fm}"), (format!("{ft}.{fm}"), true));
+        }
+        let body = cx.block(&block.stmts).map_err(|e| format!("{t}::{m}: {e}"))?;
+        out.push_str(&format!(
+            "/-- `{t}::{m}` ({}) -/\ndef {t}.{m} (dbg : Bool) {} : Res ({ret}) :=\n {body}\n\n",
+            if is_mut { "`&mut self`: returns the new `self`" } else { "`&self`" },
+            params.join(" ")
+        ));
+    }
+
+    // ---- Memory::default
+    {
+        let f = find::func(&eval, "default", Some("Default for Memory"))?;
+        let text = vec_zeros(&txt(&f.block)).replace("vec ! [", "vec_lit ! [");
+        // `vec![StackFrame { … }]`: a one-element vector
+        let text = text.replace("vec_lit ! [", "[").replace("Vec :: new ()", "[]");
+        let block: syn::Block = syn::parse_str(&text).map_err(|e| format!("Memory::default: {e}"))?;
+        let mut cx = mem_cx("Memory");
+        cx.paths.insert("None".into(), "none".into());
+        let body = cx.block(&block.stmts).map_err(|e| format!("Memory::default: {e}"))?;
+        out.push_str(&format!("/-- `Memory::default` -/\ndef Memory.default (dbg : Bool) : Res Memory :=\n {body}\n\n"));
+    }
+
+    // ---- control-flow arms of the evaluator loop
+    {
+        let f = find::func(&eval, "eval", None)?;
+        let ms = find::matches_on(&f.block, "instruction");
+        if ms.len() != 1 {
+            return Err(format!("eval: expected one `match instruction`, found {}", ms.len()));
+        }
+        let m = &ms[0];
+        let mut cx = Cx::default();
+        cx.call_rewrites.insert("eval_operand".into(), CallRw::Arg(1));
+        cx.types.insert("usize".into(), "Nat".into());
+        cx.methods.insert("switch_on".into(), Meth::Fallible("switch_on_nat".into()));
+        cx.methods.insert("find_map".into(), Meth::Pure("Vec.find_map".into()));
+        cx.methods.insert("then_some".into(), Meth::Pure("RBool.then_some".into()));
+        cx.methods.insert("unwrap_or".into(), Meth::Pure("ROpt.unwrap_or".into()));
+
+        // Switch: everything up to the assignment of the program counter
+        let arm = find::arm_for(m, "Switch")?;
+        let Expr::Block(b) = &*arm.body else { return Err("Switch arm is not a block".into()) };
+        let stmts = &b.block.stmts;
+        let n = stmts.len();
+        if n < 3
+            || nospace(&txt(&stmts[n - 2])) != "program_counter=block_map[label];"
+            || nospace(&txt(&stmts[n - 1])) != "continue;"
+        {
+            return Err(format!(
+                "Switch arm: expected to end in `program_counter = block_map[label]; continue;`, found `{}`",
+                stmts[n.saturating_sub(2)..].iter().map(txt).collect::<Vec<_>>().join(" ")
+            ));
+        }
+        let mut body_stmts: Vec<Stmt> = stmts[..n - 2].to_vec();
+        // `*i == x` on `usize` keys: decidable equality, no panic
+        let mut rp = super::scalar::ExprReplacer::new(&[("*i == x", "nat_eq(*i, x)")]);
+        for s in body_stmts.iter_mut() {
+            syn::visit_mut::VisitMut::visit_stmt_mut(&mut rp, s);
+        }
+        cx.paths.insert("nat_eq".into(), "Nat.beq".into());
+        body_stmts.push(Stmt::Expr(syn::parse_str("label").unwrap(), None));
+        let body = cx.block(&body_stmts).map_err(|e| format!("Switch arm: {e}"))?;
+        out.push_str(&format!(
+            "/-- the `Switch` arm of `lir::eval`: the label whose block the program counter is set to.\n    `switch_on_nat` is the generated `IrValue::switch_on` (EvalArms) as a `usize`. -/\ndef eval_Switch (dbg : Bool) (switch_on_nat : IrValue → Res Nat) (examinee : IrValue) (branches : List (Nat × Nat)) (default : Nat) : Res Nat :=\n {body}\n\n"
+        ));
+
+        // Jump: `program_counter = block_map[b]; continue;`
+        let arm = find::arm_for(m, "Jump")?;
+        if nospace(&txt(&arm.body)) != "{program_counter=block_map[b];continue;}" {
+            return Err(format!("Jump arm: expected `program_counter = block_map[b]; continue;`, found {}", txt(&arm.body)));
+        }
+        out.push_str("/-- the `Jump` arm of `lir::eval` (checked verbatim: `program_counter = block_map[b]; continue;`) -/\ndef eval_Jump (b : Nat) : Nat := b\n\n");
+    }
+
+    // ---- access widths: `IrType::bytes` (value.rs) and the arms that use it
+    {
+        let value = find::parse(repo, "src/lir/value.rs")?;
+        let f = find::func(&value, "bytes", Some("IrType"))?;
+        let mut cx = Cx::default();
+        for v in ["Bool", "U8", "U16", "U32", "U64", "I8", "I16", "I32", "I64", "F32", "F64", "Char", "Asn", "Pointer"] {
+            cx.paths.insert(v.into(), format!("IrType.{v}"));
+            cx.paths.insert(format!("IrType::{v}"), format!("IrType.{v}"));
+        }
+        cx.paths.insert("usize::BITS".into(), "Usize.BITS".into());
+        cx.types.insert("usize".into(), "Nat".into());
+        let body = cx.block(&f.block.stmts).map_err(|e| format!("IrType::bytes: {e}"))?;
+        out.push_str(&format!(
+            "/-- `IrType::bytes`: the number of bytes the evaluator reads for a value of this type -/\ndef IrType.bytes (dbg : Bool) (self : IrType) : Res Nat :=\n {body}\n\n"
+        ));
+        // the evaluator reads `ty.bytes()` bytes; the compiled code loads a `cranelift_type(ty)`
+        let f = find::func(&eval, "eval", None)?;
+        let ms = find::matches_on(&f.block, "instruction");
+        let arm = find::arm_for(&ms[0], "Read")?;
+        let want = "{let&IrValue::Pointer(from)=eval_operand(&vars,from)else{panic!()};letsize=ty.bytes();letres=mem.read_slice(from,size);letval=IrValue::from_slice(ty,res);vars.insert(to.clone(),val);}";
+        if nospace(&txt(&arm.body)) != want {
+            return Err(format!("Read arm of eval differs from the modelled `mem.read_slice(from, ty.bytes())` → `IrValue::from_slice(ty, …)`: {}", txt(&arm.body)));
+        }
+        let g = find::func(&codegen, "instruction", Some("FuncGen"))?;
+        let gms = find::matches_on(&g.block, "instruction");
+        let garm = find::arm_for(&gms[0], "Read")?;
+        let want = "{letc_ty=self.module.cranelift_type(ty);let(from,_)=self.operand(from);letres=self.ins().load(c_ty,MEMFLAGS,from,0);letto=self.variable(to,c_ty);self.def(to,res);}";
+        if nospace(&txt(&garm.body)) != want {
+            return Err(format!("Read arm of FuncGen::instruction differs from the modelled `load(cranelift_type(ty), from, 0)`: {}", txt(&garm.body)));
+        }
+        // Offset / Copy: the same offset and size on both sides
+        for (arm_name, ev, cgw) in [
+            ("Offset", "letnew=mem.offset_by(from,*offsetasusize);", "lettmp=self.ins().iadd_imm(from,*offsetasi64);"),
+            ("Copy", "mem.copy(to,from,*sizeasusize)", "*sizeasu64,"),
+        ] {
+            let a = find::arm_for(&ms[0], arm_name)?;
+            if !nospace(&txt(&a.body)).contains(ev) {
+                return Err(format!("{arm_name} arm of eval no longer contains `{ev}`"));
+            }
+            let a = find::arm_for(&gms[0], arm_name)?;
+            if !nospace(&txt(&a.body)).contains(cgw) {
+                return Err(format!("{arm_name} arm of FuncGen::instruction no longer contains `{cgw}`"));
+            }
+        }
+    }
+
+    // ---- Call: how arguments are bound to the callee's parameters
+    {
+        let f = find::func(&eval, "eval", None)?;
+        let ms = find::matches_on(&f.block, "instruction");
+        let arm = find::arm_for(&ms[0], "Call")?;
+        // the one loop that binds arguments: `for (name, arg) in <iter> { let val = eval_operand(&vars, arg);
+        // vars.insert(Var { scope: f.scope, kind: VarKind::Explicit(name) }, val.clone()); }`
+        struct Loops(Vec<syn::ExprForLoop>);
+        impl<'ast> syn::visit::Visit<'ast> for Loops {
+            fn visit_expr_for_loop(&mut self, l: &'ast syn::ExprForLoop) {
+                self.0.push(l.clone());
+                syn::visit::visit_expr_for_loop(self, l);
+            }
+        }
+        let mut ls = Loops(vec![]);
+        syn::visit::Visit::visit_expr(&mut ls, &arm.body);
+        let binders: Vec<&syn::ExprForLoop> = ls.0.iter().filter(|l| nospace(&txt(&l.pat)) == "(name,arg)").collect();
+        if binders.len() != 1 {
+            return Err(format!("Call arm: expected one `for (name, arg) in …` loop, found {}", binders.len()));
+        }
+        let l = binders[0];
+        let want_body = "{letval=eval_operand(&vars,arg);vars.insert(Var{scope:f.scope,kind:VarKind::Explicit(name),},val.clone(),);}";
+        if nospace(&txt(&l.body)) != want_body {
+            return Err(format!("Call arm: the argument-binding loop body differs from the modelled `vars.insert(Explicit(name), eval_operand(arg))`: {}", txt(&l.body)));
+        }
+        // `names` is `Some(parameter names)` for a function, `None` for a constant
+        let names_ok = nospace(&txt(&arm.body)).contains(
+            "letnames=match&f.kind{ItemKind::Function{ir_signature,..}=>{Some(ir_signature.parameters.iter().map(|p|p.0))}ItemKind::Constant{..}=>None,};",
+        );
+        if !names_ok {
+            return Err("Call arm: `names` is no longer `Some(ir_signature.parameters.iter().map(|p| p.0))` / `None`".into());
+        }
+        let mut cx = Cx::default();
+        cx.methods.insert("into_iter".into(), Meth::Identity);
+        cx.methods.insert("flatten".into(), Meth::Pure("ROpt.flatten_iter".into()));
+        cx.methods.insert("zip".into(), Meth::Pure("List.zip".into()));
+        cx.methods.insert("rev".into(), Meth::Pure("List.reverse".into()));
+        cx.methods.insert("skip".into(), Meth::Pure("RIter.skip".into()));
+        cx.methods.insert("take".into(), Meth::Pure("RIter.take".into()));
+        let it = cx.v(&l.expr).map_err(|e| format!("Call arm, argument iterator: {e}"))?;
+        out.push_str(&format!(
+            "/-- the `Call` arm of `lir::eval`: which argument operand each parameter of the callee is bound to\n    (`names`: the callee's parameter names, `None` for a constant; the loop body is checked verbatim:\n    `vars.insert(Explicit(name), eval_operand(arg))`). -/\ndef eval_Call_bindings {{α : Type}} (names : Option (List Nat)) (args : List α) : List (Nat × α) :=\n {it}\n\n"
+        ));
+
+        // the code generator passes `[return_ptr?] ++ [ctx?] ++ args` positionally
+        let g = find::func(&codegen, "instruction", Some("FuncGen"))?;
+        let gms = find::matches_on(&g.block, "instruction");
+        let garm = find::arm_for(&gms[0], "Call")?;
+        let gt = nospace(&txt(&garm.body));
+        let want = "letmutnew_args=Vec::new();ifletSome(return_ptr)=return_ptr{new_args.push(self.operand(&return_ptr.clone().into()).0);}ifletSome(ctx)=ctx{new_args.push(self.operand(ctx).0);}forarginargs{new_args.push(self.operand(arg).0);}";
+        if !gt.contains(want) {
+            return Err("FuncGen::instruction Call arm: argument list is no longer `[return_ptr?] ++ [ctx?] ++ args` in order".into());
+        }
+        out.push_str("/-- the `Call` arm of `FuncGen::instruction` (checked verbatim): the explicit arguments are pushed in\n    order, after the optional return pointer and context; a CLIF call binds them positionally to the\n    callee's block parameters, which `FuncGen` declares in the order of `ir_signature.parameters`. -/\ndef cg_Call_bindings {α : Type} (params : List Nat) (args : List α) : List (Nat × α) := params.zip args\n\n");
+    }
+
+    // ---- Return / the frame bookkeeping of Call (shape-checked; the frame operations they call are
+    //      the generated `Memory.push_frame` / `Memory.pop_frame`)
+    {
+        let f = find::func(&eval, "eval", None)?;
+        let ms = find::matches_on(&f.block, "instruction");
+        let arm = find::arm_for(&ms[0], "Return")?;
+        let want = "{letval=ret.as_ref().map(|r|eval_operand(&vars,r).clone());ifletSome(StackFrame{id:_,allocations:_,return_address,return_place,})=mem.pop_frame(){ifletSome(val)=val{vars.insert(return_place.unwrap(),val.clone());}program_counter=return_address+1;continue;}else{returnval;}}";
+        if nospace(&txt(&arm.body)) != want {
+            return Err(format!(
+                "Return arm differs from the modelled shape (pop_frame; a popped frame: assign the value to its return_place, continue at return_address + 1; no frame: return the value): {}",
+                txt(&arm.body)
+            ));
+        }
+        let call = find::arm_for(&ms[0], "Call")?;
+        let ct = nospace(&txt(&call.body));
+        if !ct.contains("mem.push_frame(program_counter,to.clone().map(|to|to.0));")
+            || !ct.ends_with("program_counter=block_map[&f.entry_block];continue;}")
+        {
+            return Err("Call arm: no longer `mem.push_frame(program_counter, to.clone().map(|to| to.0))` … `program_counter = block_map[&f.entry_block]; continue;`".into());
+        }
+        out.push_str(
+            "/-- the `Return` arm of `lir::eval` (shape checked verbatim; `Memory.pop_frame` is the generated one):\n    pop a frame; with a frame, hand the value to the frame's `return_place` (`unwrap`: panics when the\n    call expected no value) and continue after the call; without one, `main` returns. -/\ndef eval_Return (dbg : Bool) (mem : Memory) (val_ : Option IrValue) : Res (Memory × Flow) := do\n  let (mem, popped) ← Memory.pop_frame dbg mem\n  match popped with\n  | some fr =>\n    match val_ with\n    | some v =>\n      match fr.return_place with\n      | some place => pure (mem, Flow.resume (fr.return_address + 1) (some (place, v)))\n      | none => Res.panic\n    | none => pure (mem, Flow.resume (fr.return_address + 1) none)\n  | none => pure (mem, Flow.finish val_)\n\n/-- the frame bookkeeping of the `Call` arm (shape checked verbatim): `push_frame(program_counter,\n    to.map(|to| to.0))`, then jump to the callee's entry block. -/\ndef eval_Call_frame (dbg : Bool) (mem : Memory) (program_counter : Nat) (to_ : Option Nat) : Res Memory :=\n  Memory.push_frame dbg mem program_counter to_\n\n",
+        );
+    }
+
+    // ---- the Switch arm of the code generator
+    {
+        let f = find::func(&codegen, "instruction", Some("FuncGen"))?;
+        let ms = find::matches_on(&f.block, "instruction");
+        if ms.len() != 1 {
+            return Err(format!("FuncGen::instruction: expected one `match instruction`, found {}", ms.len()));
+        }
+        let arm = find::arm_for(&ms[0], "Switch")?;
+        let want = "{letmutswitch=Switch::new();for(idx,label)inbranches{letblock=self.get_block(*label);switch.set_entry(*idxasu128,block);}letotherwise=self.get_block(*default);let(val,_)=self.operand(examinee);switch.emit(&mutself.builder,val,otherwise);}";
+        if nospace(&txt(&arm.body)) != want {
+            return Err(format!(
+                "FuncGen::instruction Switch arm differs from the modelled shape (one `set_entry(*idx as u128, get_block(*label))` per branch in table order, then `emit(val, get_block(*default))`): {}",
+                txt(&arm.body)
+            ));
+        }
+        out.push_str(
+            "/-- the `Switch` arm of `FuncGen::instruction` (checked verbatim): one `set_entry` per branch in\n    table order, then `emit` with the default block; blocks are identified with their labels\n    (`get_block` is a map lookup). -/\ndef cg_Switch (branches : List (Nat × Nat)) : Res ClifSwitch :=\n branches.foldlM (fun s (idx, label) => s.set_entry idx label) ClifSwitch.new\n\n",
+        );
+    }
+
+    out.push_str(&footer("EvalMem"));
+    Ok(out)
+}
